@@ -39,3 +39,18 @@ claim("C09", "model_checking",
       "numpy linear algebra; reference harmonics; library default resolution; w_max values whose harmonic inclusion depends on binary rounding are excluded",
       "bounded-exhaustive enumeration of source mixes x w_max on the implementation against an exact reference and two-run relations",
       "DESIGN.md section 4 C09")
+claim("C10", "model_checking",
+      "Every RLC + ideal-source circuit of the listed topology levels x kind assignments (1..3 reactive elements, 1..2 sources) x orientation x id scheme (all id permutations at the small levels; ascending, descending and interleaved names above) that is non-degenerate (exact characteristic polynomial) has its model compared, for every source column and every output (node potentials, element voltages and currents, states), with the phasor response to that source alone at ten frequencies (more than 2n+2, which identifies the rational functions); state dimension, published source order and DC gain versus DCSolution are judged too.",
+      "numpy linear algebra; ground placement rotates with the enumeration index; palettes",
+      "bounded-exhaustive enumeration on the implementation with an exact pencil reference (transfer-function identification)",
+      "DESIGN.md section 4 C10")
+claim("C11", "model_checking",
+      "For every non-degenerate circuit of the C10 space (prime and decades palettes) the real state matrix is tested for W*A+A^T*W <= 0 and eigenvalues in the closed left half plane; for every non-degenerate class of the small levels the real transient simulation is run for every pulse shape and the stored energy from the library's own capacitor voltages and inductor currents must not grow at any sample after the inputs returned to zero.",
+      "numpy eigenvalues; lsim exact for piecewise-linear inputs",
+      "bounded-exhaustive enumeration on the implementation with an invariant (Lyapunov inequality, energy monotonicity) on every state",
+      "DESIGN.md section 4 C11")
+claim("C12", "model_checking",
+      "For every non-degenerate circuit of the listed levels x orientation x id scheme the real TransientSolution is run for every combination of input shapes on a grid resolving the fastest time constant; every node and element is read at every sample and judged: start from rest, KCL at every node, potential differences, Ohm's law and source constraints, integrated capacitor/inductor laws, agreement with the exact first-order-hold response (30-digit propagator) of the model after that model has been identified with the exact transfer function, settling to the DC solution and to the phasor steady state.",
+      "mpmath expm; lsim; model identification at ten frequencies; sampled sinusoid tolerance 1e-3",
+      "bounded-exhaustive enumeration of circuits x input-shape combinations on the implementation with a per-sample oracle",
+      "DESIGN.md section 4 C12")
